@@ -4,5 +4,5 @@ CONSTANTS
   Ks = {1,2,21}
 INIT Init
 NEXT Next
-INVARIANTS JaccardIsMergeWalk DistanceLaws FromJaccardMonotone
+INVARIANTS JaccardIsMergeWalk DistanceTable FromJaccardMonotone BracketSound
 CHECK_DEADLOCK FALSE
